@@ -1,7 +1,7 @@
 use super::error;
 use super::model::{self, AsValue};
 use std::ops::Range;
-use xml_dom::{self as dom, AsExpandedName, Attr, Document, Element, Node};
+use xml_dom::{self as dom, AsExpandedName, Attr, Document, Node};
 
 pub type XPathFunc =
     dyn Fn(Vec<model::Value>, dom::XmlNode, &mut model::Context) -> error::Result<model::Value>;
@@ -539,18 +539,25 @@ fn lang(
     node: dom::XmlNode,
     _: &mut model::Context,
 ) -> error::Result<model::Value> {
-    let name = String::try_from(args.first().unwrap())?;
+    let name = String::try_from(args.first().unwrap())?.to_ascii_lowercase();
 
-    let mut n = Some(node);
-    while let Some(dom::XmlNode::Element(element)) = n {
-        // FIXME: namespace
-        if let Some(attr) = element.get_attribute_node("lang") {
-            if attr.value()? == name {
-                return Ok(model::Value::Boolean(true));
+    // The nearest `xml:lang` on the context node or an ancestor decides.
+    let mut current = Some(node);
+    while let Some(n) = current {
+        for attr in n.attributes().iter().flat_map(|v| v.iter()) {
+            if let Some((local_name, Some(prefix), _)) = attr.as_expanded_name()? {
+                if prefix == "xml" && local_name == "lang" {
+                    let value = attr.value()?.to_ascii_lowercase();
+                    let matched = match value.strip_prefix(name.as_str()) {
+                        Some(suffix) => suffix.is_empty() || suffix.starts_with('-'),
+                        None => false,
+                    };
+                    return Ok(model::Value::Boolean(matched));
+                }
             }
         }
 
-        n = element.parent_node();
+        current = super::parent(&n);
     }
 
     Ok(model::Value::Boolean(false))
